@@ -238,7 +238,19 @@ static ares_status_t parse_nameserver_uri(ares_buf_t     *buf,
   sconfig->tcp_port = sconfig->udp_port;
   port              = ares_uri_get_query_key(uri, "tcpport");
   if (port != NULL) {
-    sconfig->tcp_port = (unsigned short)atoi(port);
+    int tcp_port;
+
+    /* Must be a plain decimal number that fits a port */
+    if (!ares_str_isnum(port) || ares_strlen(port) > 5) {
+      status = ARES_EBADSTR;
+      goto done;
+    }
+    tcp_port = atoi(port);
+    if (tcp_port > 65535) {
+      status = ARES_EBADSTR;
+      goto done;
+    }
+    sconfig->tcp_port = (unsigned short)tcp_port;
   }
 
 done:
@@ -339,6 +351,7 @@ static ares_status_t parse_nameserver(ares_buf_t *buf, ares_sconfig_t *sconfig)
   /* Pull off port */
   if (ares_buf_begins_with(buf, (const unsigned char *)":", 1)) {
     char portstr[6];
+    int  port;
 
     /* Consume : */
     ares_buf_consume(buf, 1);
@@ -356,7 +369,13 @@ static ares_status_t parse_nameserver(ares_buf_t *buf, ares_sconfig_t *sconfig)
       return status;
     }
 
-    sconfig->udp_port = (unsigned short)atoi(portstr);
+    /* At most 5 digits were read, it still needs to fit a port */
+    port = atoi(portstr);
+    if (port > 65535) {
+      return ARES_EBADSTR;
+    }
+
+    sconfig->udp_port = (unsigned short)port;
     sconfig->tcp_port = sconfig->udp_port;
   }
 
